@@ -204,7 +204,9 @@ Inductive aop :=
 | ASet (app tok : nat) | ADel (app : nat) | ADown | AUp | ACall (app tok : nat)
 | AExpire (app : nat)                      (* the cached entry is dropped (what the expiry wheel's callback does) *)
 | ABurst (app : nat) (toks : list nat).    (* overlapping Authenticate calls for one app, one per token *)
-Record acase := mka { a_strict : bool; a_ops : list aop; a_codes : list nat; a_lookups : list nat; a_hung : bool }.
+Record acase := mka { a_strict : bool; a_ops : list aop; a_codes : list nat; a_lookups : list nat;
+                      a_clookups : list nat;   (* store lookups of every single ACall, in order *)
+                      a_hung : bool }.
 
 Definition no_timer (ts : unit) (o : C10.Model.op) : unit * C10.Model.fired := (tt, []).
 Definition CODE_OK := 0. Definition CODE_INTERNAL := 13. Definition CODE_UNAUTH := 16.
@@ -225,22 +227,24 @@ Fixpoint take_codes {A} (n : nat) (l : list A) : option (list A * list A) :=
    clock; AExpire is the expiry).  Overlapping callers of Take share ONE execution of the transcribed Take
    (single-flight: C18), i.e. at most one store lookup, whose outcome every caller judges its own token by. *)
 Fixpoint auth_model (strict up : bool) (store : list (nat * nat)) (c : cache unit) (ops : list aop)
-         (codes lookups : list nat) : bool :=
+         (codes lookups clk : list nat) : bool :=
   match ops with
-  | [] => match codes, lookups with [], [] => true | _, _ => false end
-  | ASet a t :: r => auth_model strict up (aset Nat.eqb a t store) c r codes lookups
-  | ADel a :: r => auth_model strict up (aremove Nat.eqb a store) c r codes lookups
-  | ADown :: r => auth_model strict false store c r codes lookups
-  | AUp :: r => auth_model strict true store c r codes lookups
-  | AExpire a :: r => auth_model strict up store (cdel no_timer a c) r codes lookups
+  | [] => match codes, lookups, clk with [], [], [] => true | _, _, _ => false end
+  | ASet a t :: r => auth_model strict up (aset Nat.eqb a t store) c r codes lookups clk
+  | ADel a :: r => auth_model strict up (aremove Nat.eqb a store) c r codes lookups clk
+  | ADown :: r => auth_model strict false store c r codes lookups clk
+  | AUp :: r => auth_model strict true store c r codes lookups clk
+  | AExpire a :: r => auth_model strict up store (cdel no_timer a c) r codes lookups clk
   | ACall a t :: r =>
-      match codes with
-      | [] => false
-      | code :: codes' =>
+      match codes, clk with
+      | code :: codes', n :: clk' =>
           let fetch := if up then alookup Nat.eqb a store else None in
           match ctake no_timer a fetch 300000000000 c with
-          | (c', expect, _) => (code =? verdict strict expect t) && auth_model strict up store c' r codes' lookups
+          | (c', expect, fetched) =>
+              (code =? verdict strict expect t) && (n =? (if fetched && up then 1 else 0)) &&   (* a lookup that cannot reach a store that is down is not counted *)
+              auth_model strict up store c' r codes' lookups clk'
           end
+      | _, _ => false
       end
   | ABurst a toks :: r =>
       match take_codes (length toks) codes, lookups with
@@ -249,38 +253,39 @@ Fixpoint auth_model (strict up : bool) (store : list (nat * nat)) (c : cache uni
           match ctake no_timer a fetch 300000000000 c with
           | (c', expect, fetched) =>
               (n =? (if fetched then 1 else 0)) && list_eqb Nat.eqb mine (map (verdict strict expect) toks) &&
-              auth_model strict up store c' r codes' lookups'
+              auth_model strict up store c' r codes' lookups' clk
           end
       | _, _ => false
       end
   end.
 
 Definition auth_model_ok (a : acase) : bool :=
-  negb (a_hung a) && auth_model (a_strict a) true [] (cnew 300000000000 0 tt) (a_ops a) (a_codes a) (a_lookups a).
+  negb (a_hung a) && auth_model (a_strict a) true [] (cnew 300000000000 0 tt) (a_ops a) (a_codes a) (a_lookups a) (a_clookups a).
 
 (* property: a token is cached only by a successful lookup; a failed lookup (store down or app unknown)
    lets the request pass in non-strict mode but leaves nothing behind, so that once the store answers
    again the real token is required; concurrent callers for an uncached app (cold start, or after the entry
    expired) share ONE store lookup and all of them are judged by its result; cached apps cost no lookup *)
-Fixpoint auth_spec (strict up : bool) (store cached : list (nat * nat)) (ops : list aop) (codes lookups : list nat) : bool :=
+Fixpoint auth_spec (strict up : bool) (store cached : list (nat * nat)) (ops : list aop) (codes lookups clk : list nat) : bool :=
   match ops with
-  | [] => match codes, lookups with [], [] => true | _, _ => false end
-  | ASet a t :: r => auth_spec strict up (aset Nat.eqb a t store) cached r codes lookups
-  | ADel a :: r => auth_spec strict up (aremove Nat.eqb a store) cached r codes lookups
-  | ADown :: r => auth_spec strict false store cached r codes lookups
-  | AUp :: r => auth_spec strict true store cached r codes lookups
-  | AExpire a :: r => auth_spec strict up store (aremove Nat.eqb a cached) r codes lookups
+  | [] => match codes, lookups, clk with [], [], [] => true | _, _, _ => false end
+  | ASet a t :: r => auth_spec strict up (aset Nat.eqb a t store) cached r codes lookups clk
+  | ADel a :: r => auth_spec strict up (aremove Nat.eqb a store) cached r codes lookups clk
+  | ADown :: r => auth_spec strict false store cached r codes lookups clk
+  | AUp :: r => auth_spec strict true store cached r codes lookups clk
+  | AExpire a :: r => auth_spec strict up store (aremove Nat.eqb a cached) r codes lookups clk
   | ACall a t :: r =>
-      match codes with
-      | [] => false
-      | code :: codes' =>
+      match codes, clk with
+      | code :: codes', n :: clk' =>
           match alookup Nat.eqb a cached with
-          | Some expect => (code =? verdict strict (Some expect) t) && auth_spec strict up store cached r codes' lookups
+          | Some expect =>       (* one secret per APP: whatever token is presented, no further lookup *)
+              (code =? verdict strict (Some expect) t) && (n =? 0) && auth_spec strict up store cached r codes' lookups clk'
           | None =>
               let got := if up then alookup Nat.eqb a store else None in
-              (code =? verdict strict got t) &&
-              auth_spec strict up store (match got with Some e => aset Nat.eqb a e cached | None => cached end) r codes' lookups
+              (code =? verdict strict got t) && (negb up || (n =? 1)) &&
+              auth_spec strict up store (match got with Some e => aset Nat.eqb a e cached | None => cached end) r codes' lookups clk'
           end
+      | _, _ => false
       end
   | ABurst a toks :: r =>
       match take_codes (length toks) codes, lookups with
@@ -288,19 +293,19 @@ Fixpoint auth_spec (strict up : bool) (store cached : list (nat * nat)) (ops : l
           match alookup Nat.eqb a cached with
           | Some expect =>
               (n =? 0) && list_eqb Nat.eqb mine (map (verdict strict (Some expect)) toks) &&
-              auth_spec strict up store cached r codes' lookups'
+              auth_spec strict up store cached r codes' lookups' clk
           | None =>
               if up then
                 let got := alookup Nat.eqb a store in
                 (n =? 1) && list_eqb Nat.eqb mine (map (verdict strict got) toks) &&
-                auth_spec strict up store (match got with Some e => aset Nat.eqb a e cached | None => cached end) r codes' lookups'
+                auth_spec strict up store (match got with Some e => aset Nat.eqb a e cached | None => cached end) r codes' lookups' clk
               else true      (* lookups cannot be counted while the store is down: out of this clause *)
           end
       | _, _ => false
       end
   end.
 
-Definition auth_spec_ok (a : acase) : bool := negb (a_hung a) && auth_spec (a_strict a) true [] [] (a_ops a) (a_codes a) (a_lookups a).
+Definition auth_spec_ok (a : acase) : bool := negb (a_hung a) && auth_spec (a_strict a) true [] [] (a_ops a) (a_codes a) (a_lookups a) (a_clookups a).
 
 Inductive case := CC (c : ccase) | CJ (j : jcase) | CA (a : acase).
 Definition model_ok (c : case) : bool :=
